@@ -32,9 +32,10 @@ def kindCols (S : Spec) (cleaned haloLc : Bool) : List String :=
 comment before `no_request_dependent_failure` in Props/C02.lean) -/
 def validRequest (S : Spec) (req : Req) (cleaned : Bool) (loadAB : List String) (haloLc : Bool) : Bool :=
   let l := fields0 S req cleaned haloLc
-  -- every name is a declared column of this catalog kind
+  -- every name is a declared column of this catalog kind (light cones: or a name without 'L2' that is not a
+  -- light-cone column — `_setup_fields` drops those silently, misspellings included)
   l.all (fun n => decide (n ∈ names S.user_dt) || (cleaned && decide (n ∈ names S.clean_dt_progen)) ||
-                  (haloLc && decide (n ∈ names S.halo_lc_dt))) &&
+                  (haloLc && (decide (n ∈ names S.halo_lc_dt) || lcBad S n))) &&
   -- cleaned catalogs: a cleaning column, and `N`, at most once (other names may repeat)
   (!cleaned || ((names S.clean_dt_progen).all (fun x => decide (l.count x ≤ 1)) && decide (l.count "N" ≤ 1))) &&
   -- the subsample selection
